@@ -8,19 +8,20 @@ M=$WT/mutants/$N
 export GOFLAGS=-mod=mod GOPROXY=off GOSUMDB=off
 V() { grep -a "^ok\|^FAIL\|^---\|^panic" | sort | uniq -c | sort -rn | head -${1:-8}; }
 git -C $WT checkout -q -- . ; git -C $WT clean -fdq client server 2>/dev/null
+git -C $WT checkout -q --detach $(git -C /repo rev-parse HEAD) 2>/dev/null
 demo_dir=$(head -3 $M/demo_test.go | grep -o 'client/[a-zA-Z/_]*\|server/[a-zA-Z/_]*' | head -1)
 [ -n "$demo_dir" ] || demo_dir=client/pkg/orda
 echo "## demo dir: $demo_dir"
 cp $M/demo_test.go $WT/$demo_dir/zz_mutant_demo_test.go
 echo "## demo WITHOUT mutant (must pass):"
-(cd $WT/$demo_dir && go test -vet=off -count=1 -run 'Mutant|Demo|Seeded' . 2>&1 | V 4)
-git -C $WT apply $M/patch.diff || { echo "PATCH DOES NOT APPLY"; exit 3; }
+(cd $WT/$demo_dir && timeout 300 go test -vet=off -count=1 -run 'Mutant|Demo|Seeded|C[0-9][0-9]' . 2>&1 | V 4)
+git -C $WT apply $M/patch.diff 2>/dev/null || git -C $WT apply --3way $M/patch.diff || { echo "PATCH DOES NOT APPLY"; exit 3; }
 echo "## build with mutant:"; (cd $WT/client && go build ./... && cd $WT/server && go build ./... && echo build-ok)
 echo "## demo WITH mutant (must fail):"
-(cd $WT/$demo_dir && go test -vet=off -count=1 -run 'Mutant|Demo|Seeded' . 2>&1 | V 6)
+(cd $WT/$demo_dir && timeout 300 go test -vet=off -count=1 -run 'Mutant|Demo|Seeded|C[0-9][0-9]' . 2>&1 | V 6)
 rm -f $WT/$demo_dir/zz_mutant_demo_test.go
 echo "## existing client tests with mutant (must be all ok):"
-(cd $WT/client && go test -vet=off -count=1 ./... 2>&1 | grep -a "^ok\|^FAIL\|^--- FAIL" | grep -v "^ok" ; echo "(end of non-ok lines)")
+(cd $WT/client && timeout 600 go test -vet=off -count=1 ./... 2>&1 | grep -a "^ok\|^FAIL\|^--- FAIL" | grep -v "^ok" ; echo "(end of non-ok lines)")
 for P in "$@"; do
   echo "## check $P against mutant:"
   OUT=$(mktemp -d /tmp/mutout.XXXX)
@@ -28,4 +29,4 @@ for P in "$@"; do
   echo "exit=${PIPESTATUS[0]}"
   rm -rf $OUT/evidence; ls $OUT/replays/* 2>/dev/null | head -3
 done
-git -C $WT checkout -q -- .
+git -C $WT checkout -q -- . ; git -C $WT reset -q --hard 2>/dev/null
